@@ -2,12 +2,15 @@
      pyxel/data_structure/array.py   ArrayBase: _validate, array setter/getter, update, empty, __iadd__, __add__, __eq__
      pyxel/data_structure/photon.py  Photon: array / array_3d setters and getters, __iadd__, __add__, __eq__, empty
      pyxel/data_structure/pixel.py   Pixel.empty (zeros), Pixel.update
-     pyxel/detectors/detector.py     bucket setters (photon: raw `_array` copy; pixel/signal/image: through `.array`),
+     pyxel/detectors/detector.py     bucket setters (photon: dispatch to the validating Photon setters -- or, before the
+                                     repair of C13-F2c, a raw `_array` copy; pixel/signal/image: through `.array`),
                                      Detector.empty(reset);  pyxel/detectors/mkid/mkid.py  MKID.empty (phase *= 0)
-   The code is modelled as it is, defects included.  What is declarative in the source is a parameter
-   (`tables`): the TYPE_LIST of every class, which guards the validating functions contain, what each
-   Detector setter does, and numpy's in-place casting rule (read from the installed numpy).  The check
-   instantiates it with Gen_C13.src_tables, regenerated on every run.
+   The code is modelled as it is.  What is declarative in the source is a parameter (`tables`): the TYPE_LIST of
+   every class, which guards the validating functions contain, what each Detector setter does, which of the two
+   known shapes Photon.__iadd__/__add__ (raw store / through the setters) and ArrayBase.__eq__ / Photon.__eq__
+   have, and numpy's in-place casting rule (read from the installed numpy).  The check instantiates it with
+   Gen_C13.src_tables, regenerated on every run; the shapes of the code before the repairs of C13-F2a/b/c and
+   C13-F3a/b/c stay representable, so that a regression yields tables for which `tables_ok` is false.
    No proofs in this file. *)
 From Coq Require Import ZArith List Bool Arith.
 Import ListNotations.
@@ -187,7 +190,20 @@ Definition guard := option exc.
 Inductive setter_kind :=
   | SetterValidating      (* self.<bucket>.array = obj.array *)
   | SetterRaw             (* self.<bucket>._array = obj._array *)
+  | SetterDispatch        (* photon:  obj._array is None -> self.photon.empty();  ndarray -> self.photon.array = obj.array;
+                                       otherwise -> self.photon.array_3d = obj.array_3d *)
   | SetterNone.           (* the detector has no setter for this bucket *)
+
+(* the tail of Photon.__iadd__ / Photon.__add__ (after the two isinstance guards) *)
+Inductive iadd_kind :=
+  | IAddRaw               (* if self._array is not None: self._array += other   else: self._array = other *)
+  | IAddSetters.          (* empty: self.array_3d = other / self.array = other (by operand type);
+                             DataArray content: self.array_3d += other;  ndarray content: self.array += other *)
+
+(* ArrayBase.__eq__ after the type-and-shape test *)
+Inductive eq_kind :=
+  | EqLeftOnly            (* if self._array is not None: np.array_equal(self.array, other.array)   else True *)
+  | EqBothNone.           (* one side None -> (both None);  otherwise np.array_equal(self._array, other._array) *)
 
 Record tables := {
   type_list : ckind -> list dtype;
@@ -200,7 +216,11 @@ Record tables := {
   (* Photon.array_3d setter *)
   q_type : guard; q_dtype : guard; q_ndim : guard; q_dims : guard; q_shape : guard; q_coord : guard;
   q_clip : bool;
-  det_setter : ckind -> setter_kind
+  det_setter : ckind -> setter_kind;
+  ph_iadd : iadd_kind;                 (* Photon.__iadd__ *)
+  ph_add : iadd_kind;                  (* Photon.__add__ *)
+  base_eq : eq_kind;                   (* ArrayBase.__eq__ *)
+  ph_eq_geom : bool                    (* Photon.__eq__ compares (_num_rows, _num_cols) *)
 }.
 
 (* the first guard, in source order, that is present and whose test is true *)
@@ -255,11 +275,14 @@ Definition base_set (c : container) (a : arr) : container * outcome :=
 Definition clip_arr (a : arr) : arr := with_data a (map cell_clip0 (a_data a)).
 
 (* Photon.array setter *)
+Definition photon_check2d (c : container) (a : arr) : option exc :=
+  first_fail [ (p_type tb, is_xr a);
+               (p_dtype tb, negb (in_type_list Photon (a_dt a)));
+               (p_ndim tb, negb (Nat.eqb (length (a_shape a)) 2));
+               (p_shape tb, negb (shape_eqb (a_shape a) [c_rows c; c_cols c])) ].
+
 Definition photon_set2d (c : container) (a : arr) : container * outcome :=
-  match first_fail [ (p_type tb, is_xr a);
-                     (p_dtype tb, negb (in_type_list Photon (a_dt a)));
-                     (p_ndim tb, negb (Nat.eqb (length (a_shape a)) 2));
-                     (p_shape tb, negb (shape_eqb (a_shape a) [c_rows c; c_cols c])) ] with
+  match photon_check2d c a with
   | Some e => (c, Raise e)
   | None => (with_content c (Some (if p_clip tb then clip_arr a else a)), Done)
   end.
@@ -293,13 +316,16 @@ Definition dims_wyx (a : arr) : bool :=
   match a_xr a with Some xi => shape_eqb (x_dims xi) [0; 1; 2] | None => false end.
 
 (* Photon.array_3d setter *)
+Definition photon_check3d (c : container) (a : arr) : option exc :=
+  first_fail [ (q_type tb, negb (is_xr a));
+               (q_dtype tb, negb (in_type_list Photon (a_dt a)));
+               (q_ndim tb, negb (Nat.eqb (length (a_shape a)) 3));
+               (q_dims tb, negb (dims_wyx a));
+               (q_shape tb, negb (yx_sizes_ok c a));
+               (q_coord tb, negb (has_wl_coord a)) ].
+
 Definition photon_set3d (c : container) (a : arr) : container * outcome :=
-  match first_fail [ (q_type tb, negb (is_xr a));
-                     (q_dtype tb, negb (in_type_list Photon (a_dt a)));
-                     (q_ndim tb, negb (Nat.eqb (length (a_shape a)) 3));
-                     (q_dims tb, negb (dims_wyx a));
-                     (q_shape tb, negb (yx_sizes_ok c a));
-                     (q_coord tb, negb (has_wl_coord a)) ] with
+  match photon_check3d c a with
   | Some e => (c, Raise e)
   | None => (with_content c (Some (if q_clip tb then clip_arr a else a)), Done)
   end.
@@ -346,12 +372,18 @@ Definition base_iadd (c : container) (a : arr) : container * outcome :=
   end.
 
 (* Photon.__iadd__ / __add__ :
-     ndarray on a stored DataArray, DataArray on a stored ndarray -> TypeError
-     if self._array is not None: self._array += other
-     else:                        self._array = other           (stored as it is) *)
-Definition photon_iadd (c : container) (a : arr) : container * outcome :=
+     ndarray on a stored DataArray, DataArray on a stored ndarray -> TypeError; then the tail `k`:
+     IAddRaw      if self._array is not None: self._array += other   else: self._array = other   (stored as it is)
+     IAddSetters  empty: the setter chosen by the operand's type; otherwise `self.array += other` /
+                  `self.array_3d += other` = getter, in-place addition on the stored object, setter (validate, clip,
+                  copy) on the result *)
+Definition photon_iadd (k : iadd_kind) (c : container) (a : arr) : container * outcome :=
   match c_content c with
-  | None => (with_content c (Some a), Done)
+  | None =>
+      match k with
+      | IAddRaw => (with_content c (Some a), Done)
+      | IAddSetters => if is_xr a then photon_set3d c a else photon_set2d c a
+      end
   | Some cur =>
       match a_xr cur, a_xr a with
       | Some _, None => (c, Raise TypeError)
@@ -359,13 +391,21 @@ Definition photon_iadd (c : container) (a : arr) : container * outcome :=
       | None, None =>
           match np_iadd cur a with
           | inr e => (c, Raise e)
-          | inl cur' => (with_content c (Some cur'), Done)
+          | inl cur' =>
+              match k with
+              | IAddRaw => (with_content c (Some cur'), Done)
+              | IAddSetters => photon_set2d (with_content c (Some cur')) cur'
+              end
           end
       | Some _, Some _ =>
           match xr_iadd cur a with
           | None => (c, Unmodelled)
           | Some (inr e) => (c, Raise e)
-          | Some (inl cur') => (with_content c (Some cur'), Done)
+          | Some (inl cur') =>
+              match k with
+              | IAddRaw => (with_content c (Some cur'), Done)
+              | IAddSetters => photon_set3d (with_content c (Some cur')) cur'
+              end
           end
       end
   end.
@@ -411,10 +451,14 @@ Definition arr_xr_equals (a b : arr) : bool :=
   end.
 
 (* a == b, as coded in ArrayBase.__eq__ and Photon.__eq__ *)
+Definition same_geom (a b : container) : bool :=
+  Nat.eqb (c_rows a) (c_rows b) && Nat.eqb (c_cols a) (c_cols b).
+
 Definition eq_res (a b : container) : outcome :=
   match c_kind a with
   | Photon =>
       if negb (ckind_eqb (c_kind b) Photon) then RetBool false
+      else if ph_eq_geom tb && negb (same_geom a b) then RetBool false
       else match c_content a, c_content b with
            | None, None => RetBool true
            | None, Some _ => RetBool false
@@ -422,14 +466,23 @@ Definition eq_res (a b : container) : outcome :=
            | Some x, Some y => if is_xr x then RetBool (arr_xr_equals x y) else RetBool (arr_np_equal x y)
            end
   | k =>
-      if negb (ckind_eqb k (c_kind b) && Nat.eqb (c_rows a) (c_rows b) && Nat.eqb (c_cols a) (c_cols b))
+      if negb (ckind_eqb k (c_kind b) && same_geom a b)
       then RetBool false
-      else match c_content a with
-           | None => RetBool true
-           | Some x => match c_content b with
-                       | None => Raise ValueError            (* other.array on an empty container *)
-                       | Some y => RetBool (arr_np_equal x y)
-                       end
+      else match base_eq tb with
+           | EqLeftOnly =>
+               match c_content a with
+               | None => RetBool true
+               | Some x => match c_content b with
+                           | None => Raise ValueError            (* other.array on an empty container *)
+                           | Some y => RetBool (arr_np_equal x y)
+                           end
+               end
+           | EqBothNone =>
+               match c_content a, c_content b with
+               | None, None => RetBool true
+               | Some x, Some y => RetBool (arr_np_equal x y)
+               | _, _ => RetBool false
+               end
            end
   end.
 
@@ -444,6 +497,28 @@ Definition det_assign (c : container) (o : container) : container * outcome :=
       | Raise e => (c, Raise e)
       | _ => (c, Unmodelled)
       end
+  | SetterDispatch =>
+      if negb (is_photon (c_kind c)) then (c, Unmodelled)        (* only the photon setter has this shape *)
+      else match c_content o with
+           | None => (with_content c None, Done)
+           | Some a =>
+               if is_xr a then
+                 (if is_photon (c_kind o) then photon_set3d c a else (c, Raise OtherError))   (* obj.array_3d *)
+               else photon_set2d c a                                                         (* obj.array *)
+           end
+  end.
+
+(* the stored array would be accepted again by the setter that stores it (what `self.array += x` relies on:
+   the setter runs once more on the object that has just been modified in place) *)
+Definition is_none {A} (o : option A) : bool := match o with None => true | Some _ => false end.
+
+Definition accepted (c : container) : bool :=
+  match c_content c with
+  | None => true
+  | Some a =>
+      if is_photon (c_kind c) then
+        (if is_xr a then is_none (photon_check3d c a) else is_none (photon_check2d c a))
+      else is_none (validate_base c a)
   end.
 
 Definition step (c : container) (o : op) : container * outcome :=
@@ -456,7 +531,8 @@ Definition step (c : container) (o : op) : container * outcome :=
            | Some a => base_set c (as_numpy a)
            | None => (with_content c None, Done)
            end
-  | OIAdd a | OAdd a => if is_photon (c_kind c) then photon_iadd c a else base_iadd c a
+  | OIAdd a => if is_photon (c_kind c) then photon_iadd (ph_iadd tb) c a else base_iadd c a
+  | OAdd a => if is_photon (c_kind c) then photon_iadd (ph_add tb) c a else base_iadd c a
   | OEmpty =>
       match c_kind c with
       | Pixel => (with_content c (Some (zeros_f64 (c_rows c) (c_cols c))), Done)
@@ -565,27 +641,9 @@ Definition eq_spec (a b : container) : bool :=
 Definition content_nan_free (c : container) : bool :=
   match c_content c with None => true | Some a => nan_free (a_data a) end.
 
-(* operations excluded by the partial invariant theorem (the places where the code lets an
-   unvalidated array in) *)
-Definition offending (c : container) (o : op) : bool :=
-  match c_kind c, o with
-  | Photon, (OIAdd a | OAdd a) =>
-      match c_content c with
-      | None => negb (arr_ok Photon (c_rows c) (c_cols c) a)       (* stored as it is *)
-      | Some _ => negb (all_nonneg (a_data a))                      (* no clipping on += *)
-      end
-  | Photon, ODAssign o' => negb (inv_b (with_content c (c_content o')))   (* raw copy of another container's array *)
-  | _, _ => false
-  end.
-
-Fixpoint no_offending (tb : tables) (c : container) (ops : list op) : bool :=
-  match ops with
-  | [] => true
-  | o :: t => negb (offending c o) && no_offending tb (fst (step tb c o)) t
-  end.
-
 (* the source tables are what the property needs: every TYPE_LIST inside the allowed set, every
-   guard of the three validating functions present, both clips present *)
+   guard of the three validating functions present, both clips present, no raw detector setter, Photon += / +
+   through the setters, == of the symmetric shape *)
 Definition guard_present (g : guard) : bool := match g with Some _ => true | None => false end.
 
 Definition type_lists_ok (tb : tables) : bool :=
@@ -600,11 +658,20 @@ Definition guards_ok (tb : tables) : bool :=
 (* Pixel.empty() stores float64 zeros; the setter run again by += must accept them *)
 Definition pixel_zeros_ok (tb : tables) : bool := dtype_mem F64 (type_list tb Pixel).
 
-Definition no_raw_base_setter (tb : tables) : bool :=
-  forallb (fun k => match det_setter tb k with SetterRaw => false | _ => true end) [Pixel; Signal; Image; Phase].
+Definition no_raw_setter (tb : tables) : bool :=
+  forallb (fun k => match det_setter tb k with SetterRaw => false | _ => true end) [Photon; Pixel; Signal; Image; Phase].
+
+(* Photon += / + go through the validating setters on every branch *)
+Definition iadd_through_setters (tb : tables) : bool :=
+  match ph_iadd tb, ph_add tb with IAddSetters, IAddSetters => true | _, _ => false end.
+
+(* == compares emptiness on both sides, and the geometry for photons too *)
+Definition eq_shape_ok (tb : tables) : bool :=
+  match base_eq tb with EqBothNone => ph_eq_geom tb | EqLeftOnly => false end.
 
 Definition tables_ok (tb : tables) : bool :=
-  type_lists_ok tb && guards_ok tb && pixel_zeros_ok tb && no_raw_base_setter tb.
+  type_lists_ok tb && guards_ok tb && pixel_zeros_ok tb && no_raw_setter tb && iadd_through_setters tb
+  && eq_shape_ok tb.
 
 (* ------------------------------------------------------------------------------------------ case files
    One case = a bucket of a real detector, an operation list and what the implementation showed
